@@ -65,7 +65,7 @@ theorem legalStart_cases {code h : Nat} (hl : Host.Sub.legalStart code h = true)
 /-- the brute-force evaluator: unfold the model step, the monitor and the invariant -/
 macro "c21_eval" : tactic => `(tactic|
   simp (config := { decide := true }) [Good, CallSys.step, Fut.poll, Fut.drop, Fut.wake, Fut.handle, pollComplete, pollCompleteWithCode,
-    registerWaker, unregisterWaker, cancel, cabiWake, subtaskOps, subtaskUpdate,
+    registerWaker, unregisterWaker, cancel, cancelPrepare, cabiWake, subtaskOps, subtaskUpdate,
     WOp.new, Step.bind, Step.emit, Step.pure, run, SubtaskSpec.step, Inv, AwaitInv, startedKnown, resolvedKnown,
     InProgress.flagStarted, InProgress.dropEvs, CallResult.dropEvs, dropOp, CabiTask.dropEvs, complete, completeChecks,
     Host.STARTED, Host.RETURNED, Host.STARTING, Host.RETURNED_CANCELLED, Host.STARTED_CANCELLED, Host.resolved, *])
